@@ -126,6 +126,8 @@ def run(ctx):
         for mx in maxes:
             for a in mx[2]:
                 b = bin_of(a)
+                if a[0] == "call" and a[4] in ("saturating_add", "wrapping_add", "checked_add") and len(a[2]) == 2:
+                    b = ("Add", a[2][0], a[2][1])
                 if b and b[0] == "Add" and b[2][0] == "const" and b[2][3] == 1 and b[1][0] == "field" and b[1][2] == "2" and b[1][1][0] == "field" and b[1][1][2] == "key":
                     ok = True
         ctx.check(ok, "loader", "counter-restored", ctx.loc(f), "loader: counter <- max over stored entries of (key.2 + 1)",
